@@ -775,6 +775,34 @@ func (bal *Balancer) balanceBlock(blkid arvados.SizedDigest, blk *BlockState) ba
 				unsafeToDelete[slot.repl.Mtime] = true
 			}
 		}
+
+		// A replica on a mount outside this class can be
+		// counted toward replWant/replProt above (another
+		// server is preferred over a second mount of this
+		// class on an already-used server), but it does not
+		// add to this class's replication. Don't trash
+		// anything unless the replicas we are keeping in
+		// this class -- wanted, or protected via
+		// unsafeToDelete -- are sufficient on their own.
+		if !underreplicated {
+			kept := 0
+			keptDev := map[string]bool{}
+			for _, slot := range slots {
+				if slot.repl == nil || !bal.mountsByClass[class][slot.mnt] || keptDev[slot.mnt.DeviceID] {
+					continue
+				}
+				if !slot.want && !unsafeToDelete[slot.repl.Mtime] {
+					continue
+				}
+				if slot.mnt.DeviceID != "" {
+					keptDev[slot.mnt.DeviceID] = true
+				}
+				if kept += slot.mnt.Replication; kept >= desired {
+					break
+				}
+			}
+			underreplicated = kept < desired
+		}
 	}
 
 	// TODO: If multiple replicas are trashable, prefer the oldest
